@@ -455,6 +455,8 @@ pub struct Verdict {
     pub fatal: Option<String>,
     pub structural: Vec<String>,
     pub undercount: Vec<String>,
+    /// (host cluster, stored refcount, owners) of every entry of `undercount`
+    pub undercount_info: Vec<(u64, u64, Vec<Owner>)>,
     pub leak: Vec<String>,
     /// host cluster index of every entry of `leak`
     pub leak_clusters: Vec<u64>,
@@ -462,6 +464,23 @@ pub struct Verdict {
 }
 
 impl Verdict {
+    /// drop under-count entries for which `f(cluster, stored, owners)` holds
+    pub fn forgive_undercounts(&mut self, f: impl Fn(u64, u64, &[Owner]) -> bool) -> usize {
+        let mut n = 0;
+        let mut i = 0;
+        while i < self.undercount_info.len() {
+            let (c, s, o) = &self.undercount_info[i];
+            if f(*c, *s, o) {
+                self.undercount_info.remove(i);
+                self.undercount.remove(i);
+                n += 1;
+            } else {
+                i += 1;
+            }
+        }
+        n
+    }
+
     /// drop the leak entries of the given host clusters; returns how many
     pub fn forgive_leaks(&mut self, clusters: &std::collections::BTreeSet<u64>) -> usize {
         let mut n = 0;
@@ -551,6 +570,7 @@ pub fn check_walk(img: &dyn Img, w: &Walk, exact: bool, v: &mut Verdict) {
                 cl * cs,
                 owners
             ));
+            v.undercount_info.push((*cl, stored, owners.clone()));
         } else if stored > refs {
             v.leak.push(format!(
                 "host cluster {cl} ({:#x}) refcount {stored} > {refs} references",
